@@ -49,7 +49,7 @@ package main
 // entered with the object id git gave), and the scan gets exactly that list.
 //@   call 2 FlagSet).Args as rootArgs2
 //@   loop 0 invariant len(roots) == rangeindex + 1
-//@   loop 0 step len(roots) == prev(len(roots)) + 1 && dyntype(roots[len(roots)-1], "sizes.RefRoot") && same(unbox(roots[len(roots)-1], "sizes.RefRoot"), refRoot)
+//@   loop 0 step len(roots) == prev(len(roots)) + 1 && dyntype(roots[len(roots)-1], "sizes.RefRoot") && same(unbox(roots[len(roots)-1], "sizes.RefRoot"), refRoots[rangeindex])
 //@   loop 1 invariant len(roots) == len(refs0) + rangeindex + 1
 //@   call 0 ResolveObject assert same(arg_1, arg)
 //@   loop 1 step len(roots) == prev(len(roots)) + 1 && dyntype(roots[len(roots)-1], "sizes.ExplicitRoot") && unbox(roots[len(roots)-1], "sizes.ExplicitRoot").oid == ro0 && same(unbox(roots[len(roots)-1], "sizes.ExplicitRoot").name, arg)
